@@ -1,5 +1,5 @@
 #!/bin/bash
-# seedsweep.sh <round: 1..6> <Cxx> [<Cyy>] : (Cyy: the property whose check is run, default Cxx) apply the stored seeded change of that round to a fresh scratch
+# seedsweep.sh <round: 1..7> <Cxx> [<Cyy>] : (Cyy: the property whose check is run, default Cxx) apply the stored seeded change of that round to a fresh scratch
 # worktree of /repo's main, then
 #  (a) run the quick check against it under the default seed WITH the corpus; if it reports a concrete
 #      violation and corpus/Cxx/seeded-<id>.json does not exist yet, store that failing input there;
@@ -10,7 +10,7 @@ set -u
 export GOFLAGS=-mod=mod GOPROXY=off GOSUMDB=off GOTOOLCHAIN=local
 RD=$1; P=$2; K=${3:-$2}
 V=$(cd "$(dirname "$0")/.." && pwd)
-case $RD in 1) SUF=""; ROOT=/tmp/sweep1;; 2) SUF="-2"; ROOT=/tmp/sweep2;; 3) SUF="-3"; ROOT=/tmp/sweep3;; 4) SUF="-4"; ROOT=/tmp/sweep4;; 5) SUF="-5"; ROOT=/tmp/sweep5;; 6) SUF="-6"; ROOT=/tmp/sweep6;; esac
+case $RD in 1) SUF=""; ROOT=/tmp/sweep1;; 2) SUF="-2"; ROOT=/tmp/sweep2;; 3) SUF="-3"; ROOT=/tmp/sweep3;; 4) SUF="-4"; ROOT=/tmp/sweep4;; 5) SUF="-5"; ROOT=/tmp/sweep5;; 6) SUF="-6"; ROOT=/tmp/sweep6;; 7) SUF="-7"; ROOT=/tmp/sweep7;; esac
 ID=$P$SUF; R=$ROOT/$P/repo
 git -C /repo worktree remove --force $R 2>/dev/null; rm -rf $R; git -C /repo worktree prune
 mkdir -p $ROOT/$P
